@@ -334,16 +334,28 @@ fn parse_diff_header_line(line: &str, git_diff_name: bool) -> (String, FileEvent
             (file, FileEvent::Change)
         }
         line if line.starts_with("rename from ") => {
-            (line[12..].to_string(), FileEvent::Rename) // "rename from ".len()
+            (
+                remove_surrounding_quotes(&line[12..]).to_string(),
+                FileEvent::Rename,
+            ) // "rename from ".len()
         }
         line if line.starts_with("rename to ") => {
-            (line[10..].to_string(), FileEvent::Rename) // "rename to ".len()
+            (
+                remove_surrounding_quotes(&line[10..]).to_string(),
+                FileEvent::Rename,
+            ) // "rename to ".len()
         }
         line if line.starts_with("copy from ") => {
-            (line[10..].to_string(), FileEvent::Copy) // "copy from ".len()
+            (
+                remove_surrounding_quotes(&line[10..]).to_string(),
+                FileEvent::Copy,
+            ) // "copy from ".len()
         }
         line if line.starts_with("copy to ") => {
-            (line[8..].to_string(), FileEvent::Copy) // "copy to ".len()
+            (
+                remove_surrounding_quotes(&line[8..]).to_string(),
+                FileEvent::Copy,
+            ) // "copy to ".len()
         }
         line if line.starts_with("new file mode ") => {
             (line[14..].to_string(), FileEvent::Added) // "new file mode ".len()
